@@ -195,7 +195,9 @@ run stays alive -/
 theorem C08_route (cfg : Cfg) (pol : Policy) (step : Nat) (tickEv : Ev) (dc : Bool) (acc : ResAcc)
     (exc : Nat) (failedAt : Int) (h m : Nat)
     (hstop : retryDecision cfg pol step (failedAt - acc.exec.firstAt) (acc.exec.attempts + 1) exc = .stop)
-    (hown : handlerOwner cfg step = some (h, m)) (hbudget : acc.exec.rc.get h + 1 ≤ m) :
+    (hown : handlerOwner cfg step = some (h, m)) (hbudget : acc.exec.rc.get h + 1 ≤ m)
+    -- (the failure of an execution that an earlier result of the same list already scheduled to run again is skipped)
+    (hsip : acc.stillInProgress = false) :
     (applyRes cfg pol step tickEv dc acc (.failed exc failedAt)).cmds = acc.cmds ++
       [.queueEvent { ev := { ty := tyStepFailed, kind := .plain, uid := 0, key := none,
                              fail := some { step := step, inputUid := tickEv.uid, exc := exc,
@@ -203,21 +205,22 @@ theorem C08_route (cfg : Cfg) (pol : Policy) (step : Nat) (tickEv : Ev) (dc : Bo
                                             elapsed := failedAt - acc.exec.firstAt, failedAt := failedAt } },
                      rc := acc.exec.rc.set h (acc.exec.rc.get h + 1) } (some h) none] ∧
     (applyRes cfg pol step tickEv dc acc (.failed exc failedAt)).st = acc.st := by
-  simp [applyRes, hstop, hown, hbudget]
+  simp [applyRes, hstop, hown, hbudget, hsip]
 
 /-- **fail**: exhausted and (no owner or budget spent) ⇒ `WorkflowFailedEvent` + failure with the
 original exception; the run is marked not running -/
 theorem C08_fail (cfg : Cfg) (pol : Policy) (step : Nat) (tickEv : Ev) (dc : Bool) (acc : ResAcc)
     (exc : Nat) (failedAt : Int)
     (hstop : retryDecision cfg pol step (failedAt - acc.exec.firstAt) (acc.exec.attempts + 1) exc = .stop)
-    (hno : handlerOwner cfg step = none ∨ ∃ h m, handlerOwner cfg step = some (h, m) ∧ m < acc.exec.rc.get h + 1) :
+    (hno : handlerOwner cfg step = none ∨ ∃ h m, handlerOwner cfg step = some (h, m) ∧ m < acc.exec.rc.get h + 1)
+    (hsip : acc.stillInProgress = false) :
     (applyRes cfg pol step tickEv dc acc (.failed exc failedAt)).cmds = acc.cmds ++
       [.publish (.failed step exc (acc.exec.attempts + 1) (failedAt - acc.exec.firstAt)), .failWorkflow step exc] ∧
     (applyRes cfg pol step tickEv dc acc (.failed exc failedAt)).st.isRunning = false := by
   rcases hno with hno | ⟨h, m, hown, hlt⟩
-  · simp [applyRes, hstop, hno]
+  · simp [applyRes, hstop, hno, hsip]
   · have : ¬ (acc.exec.rc.get h + 1 ≤ m) := by omega
-    simp [applyRes, hstop, hown, this]
+    simp [applyRes, hstop, hown, this, hsip]
 
 /-! ## the lineage budget -/
 
